@@ -22,9 +22,12 @@ func init() {
 func coreC03(tier string) []RunSpec {
 	var out []RunSpec
 	// deterministic sequential histories, one per kind, with and without watcher
-	for _, kind := range []string{"seq", "internal", "nut20", "race"} {
+	for _, kind := range []string{"seq", "internal", "nut20", "race", "faulted"} {
 		for w := 0; w <= 1; w++ {
 			n := 1
+			if kind == "faulted" {
+				n = 8 // storage error at the k-th storage call, k = 1..8
+			}
 			if kind == "race" {
 				n = 6
 				if tier == "thorough" {
@@ -32,14 +35,18 @@ func coreC03(tier string) []RunSpec {
 				}
 			}
 			for k := 0; k < n; k++ {
-				out = append(out, RunSpec{Profile: "core:" + kind, Params: map[string]int{"kind": kindIdx(kind), "watcher": w, "k": k}})
+				p := map[string]int{"kind": kindIdx(kind), "watcher": w, "k": k}
+				if kind == "faulted" {
+					p["fk"] = k + 1
+				}
+				out = append(out, RunSpec{Profile: "core:" + kind, Params: p})
 			}
 		}
 	}
 	return out
 }
 
-var c03Kinds = []string{"race", "seq", "internal", "nut20"}
+var c03Kinds = []string{"race", "seq", "internal", "nut20", "faulted"}
 
 func kindIdx(k string) int {
 	for i, x := range c03Kinds {
@@ -71,7 +78,7 @@ func runC03(rc *RunCtx) {
 		forced = v
 	}
 	rc.StepLoop(1, 5, func(i int) {
-		kind := T.Pick("step.kind", 5, 2, 2, 2)
+		kind := T.Pick("step.kind", 5, 2, 2, 2, 2)
 		if forced >= 0 {
 			kind = forced
 		}
@@ -82,6 +89,8 @@ func runC03(rc *RunCtx) {
 			c03Seq(rc, user, i)
 		case "internal":
 			c03Internal(rc, user, i)
+		case "faulted":
+			c03Faulted(rc, user, i)
 		case "nut20":
 			c03Nut20(rc, user, i)
 		}
@@ -393,4 +402,43 @@ func c03Finale(rc *RunCtx, user *Actor) {
 		rc.S.Drain()
 	}
 	_ = strings.Join
+}
+
+// c03Faulted: a mint request on a paid quote meets a storage error at its k-th storage call. Whatever
+// it left behind: the client restores the outputs of the refused request (as a wallet does after a
+// failed mint) and then asks again with fresh outputs - signatures that leave through restore count
+// for the quote like those of a mint response.
+func c03Faulted(rc *RunCtx, user *Actor, step int) {
+	T, W := rc.T, rc.W
+	amount := uint64(1 << uint(T.Choose("flt.amt", 6)))
+	k := 1 + T.Choose("flt.k", 8)
+	if v, ok := rc.Spec.Params["fk"]; ok {
+		k = v
+	}
+	rc.Op(fmt.Sprintf("faulted-mint db_error@%d", k))
+	ks := W.ActiveKeyset("A")
+	name := fmt.Sprintf("s%d.flt", step)
+	a := NewActor(W, name)
+	var q *MintQuote
+	rc.Quietly(func() {
+		q, _ = a.ReqMintQuote("A", amount, false)
+		if q != nil {
+			W.LN.PayExternal(q.Hash)
+		}
+	})
+	if q == nil {
+		return
+	}
+	outs1 := W.NewOutputs(Split(amount), ks.ID)
+	rc.S.BeginEpisode(&FaultPlan{Node: "A", Kind: "db_error", SeamKind: "db", Pos: k})
+	rc.S.Run1(name+".m1", W.Ext, func() { a.Mint("A", q, outs1, "") })
+	rc.S.BeginEpisode()
+	rc.S.Run1(name+".rest", W.Ext, func() {
+		a.Restore("A", outs1)
+		a.Mint("A", q, W.NewOutputs(Split(amount), ks.ID), "")
+		a.Restore("A", outs1)
+		a.Mint("A", q, W.NewOutputs(Split(amount), ks.ID), "")
+	})
+	rc.S.Probe("c03_faulted_mint")
+	rc.Nontrivial = true
 }
